@@ -157,7 +157,7 @@ def tv(ctx):
 
 
 def replay(ctx, jobname, failure):
-    exe = native.build([os.path.join(HERE, 'c17_replay.cpp')], os.path.join(ctx.work, 'c17_replay'), flags=['-I', os.path.join(ctx.repo, 'src/tbbmalloc')], link_tbb=False, link_malloc=True)
+    exe = native.build([os.path.join(HERE, 'c17_replay.cpp')], os.path.join(ctx.work, 'c17_replay'), flags=['-fno-access-control', '-I', os.path.join(ctx.repo, 'src/tbbmalloc'), '-I', os.path.join(ctx.repo, 'src'), '-D__TBBMALLOC_BUILD=1', '-ldl'])
     ins = failure.get('inputs', {}) or {}
     args = [exe, jobname] + ['%s=%s' % (k, v) for k, v in sorted(ins.items()) if isinstance(v, int)]
     rc, out = native.run(args, timeout=120)
